@@ -71,7 +71,7 @@ theorem spellTxt_mem_unary {o : Nat} (ho : o < T.ops.length) (har : (T.row o).ar
 /-- the lexer reads a bracketed or unbracketed operand text -/
 theorem lex_wrap (hlp : S.contains [40] = true) (hrp : S.contains [41] = true)
     (hsafeL : safeBeforeTerm T S [40] = true)
-    (hsafeR : ∀ t ∈ S, [41].isPrefixOf t = true → t = [41] ∨ (t.drop 1).headD 0 ≠ 32 ∧ (t.drop 1).headD 0 ≠ 41)
+    (hsafeR : ∀ t ∈ S, [41].isPrefixOf t = true → t = [41] ∨ (t.drop 1).headD 0 ≠ 32 ∧ (t.drop 1).headD 0 ≠ 41 ∧ (t.drop 1).headD 0 ≠ 44)
     {txt : List Nat} {toks : List Tok} (ht : Steps S txt toks Follow) (hs : ∀ rest, TextStart T (txt ++ rest)) (b : Bool) :
     Steps S (wrapT b txt) (wrap b toks) Follow ∧ ∀ rest, TextStart T (wrapT b txt ++ rest) := by
   cases b with
@@ -84,7 +84,7 @@ theorem lex_wrap (hlp : S.contains [40] = true) (hrp : S.contains [41] = true)
     have hR : Steps S [41] [.rp] (SafeAfter S [41]) := by
       have := steps_symbol (S := S) (w := [41]) (by decide) hrp
       simpa [tokOfTerminal] using this
-    have h2 := Steps.append ht (hR.mono (fun r hr => safe_rp hsafeR hr)) (fun rest _ => Or.inr ⟨rest, Or.inr rfl⟩)
+    have h2 := Steps.append ht (hR.mono (fun r hr => safe_rp hsafeR hr)) (fun rest _ => Or.inr ⟨rest, Or.inr (Or.inl rfl)⟩)
     have h3 := Steps.append hL h2 (fun rest _ => safe_beforeTerm hsafeL (by simpa using hs (41 :: rest)))
     simpa [wrapT, wrap] using h3
 
